@@ -206,13 +206,60 @@ class Job:
         return {'n_defined': len(names), 'encoded': hit[:60]}
 
     # ---------------------------------------------------------------- CBMC
-    def cbmc_cmd(self, extra_defs=()):
+    def cbmc_cmd(self, extra_defs=(), raw=False):
         cmd = ['cbmc', self.gen] + self.c_srcs() + [os.path.join(V, 'rt', 'vf_rt.c'), os.path.join(V, 'rt', 'vf_num.c')]
         cmd += ['-I', os.path.join(V, 'rt'), '-I', self.hdir, '-I', os.path.join(V, 'harness', 'common'), '-DVF_GEN'] + defs_flags(self.defs) + list(extra_defs)
         cmd += ['--unwind', str(self.unwind), '--object-bits', str(self.h.get('object_bits', 12))] + CBMC_FLAGS + self.h.get('cbmc_flags', []) + self.var.get('cbmc_flags', [])
-        for u in self.h.get('unwindset', []) + self.var.get('unwindset', []) + sorted(getattr(self, 'auto_unwindset', set())):
+        named = [] if raw else self.loop_bound_unwindset()
+        fixed = {u.rsplit(':', 1)[0] for u in named}
+        for u in self.h.get('unwindset', []) + self.var.get('unwindset', []) + sorted(x for x in getattr(self, 'auto_unwindset', set()) if x.rsplit(':', 1)[0] not in fixed) + named:
             cmd += ['--unwindset', u]
         return cmd
+
+    def loop_bound_unwindset(self):
+        """Per-loop bounds named by content (harness key loop_bounds = [(function substring, callee substring, bound)]): the
+        innermost loop of a function matching the first string whose body calls a function matching the second gets
+        --unwindset <id>:<bound>. Loop identifiers are taken from cbmc --show-loops on the generated C of this very build, so
+        they follow the code. The bound is enforced by its unwinding assertion like every other one."""
+        lbs = self.var.get('loop_bounds', self.h.get('loop_bounds', []))
+        if not lbs:
+            return []
+        if getattr(self, '_lb_cache', None) is not None:
+            return self._lb_cache
+        cmd = [c for c in self.cbmc_cmd(raw=True) if c != '--json-ui'] + ['--show-loops']
+        rc, out, err, _ = sh(cmd, timeout=600)
+        src = open(self.gen).read().splitlines()
+        loops = re.findall(r'Loop (\S+):\n\s+file (\S+) line (\d+) function (\S+)', out)
+        res = []
+        for fsub, csub, bound in lbs:
+            best = None
+            for lid, f, line, fn in loops:
+                if fsub not in fn or not f.endswith('gen.c'):
+                    continue
+                line = int(line)
+                m = re.search(r'goto (bb\d+);\s*}?\s*$', src[line - 1])
+                if not m:
+                    continue
+                # header label: nearest preceding "bbK: ;" line
+                head = None
+                for k in range(line - 1, 0, -1):
+                    if src[k - 1].startswith(m.group(1) + ': ;'):
+                        head = k
+                        break
+                    if src[k - 1].startswith('}'):
+                        break
+                if head is None:
+                    continue
+                body = '\n'.join(src[head - 1:line])
+                if re.search(r'= \S*' + re.escape(csub) + r'\S*\(', body) or re.search(r'^\s*\S*' + re.escape(csub) + r'\S*\(', body, re.M):
+                    if best is None or (line - head) < best[1]:
+                        best = (lid, line - head)
+            if best is None:
+                raise Broken('loop_bounds: no loop of %s calling %s found' % (fsub, csub))
+            res.append('%s:%d' % (best[0], bound))
+        self._lb_cache = res
+        self.res['content_named_loop_bounds'] = res
+        return res
 
     def run_cbmc(self, trace_props=None):
         cmd = self.cbmc_cmd()
